@@ -12,6 +12,54 @@ type (
 	RWMutex   = vrt.RWMutex
 	WaitGroup = vrt.WaitGroup
 	Once      = vrt.Once
-	Pool      = sync.Pool
 	Locker    = sync.Locker
 )
+
+// Pool is a deterministic stand-in for sync.Pool: a LIFO free list that never drops an object.
+// The real pool hands a released object to whoever asks next - or not, depending on the P the caller
+// runs on and on garbage collections. For model checking the adversarial and reproducible choice is
+// "always reuse": a value that is still referenced after Put reaches its next user in every execution.
+type Pool struct {
+	New        func() any
+	items      []any
+	registered bool
+}
+
+var pools []*Pool
+
+func init() {
+	vrt.ExecStart = append(vrt.ExecStart, func() {
+		for _, p := range pools {
+			p.items = nil // no object survives from one explored execution into the next
+			p.registered = false
+		}
+		pools = pools[:0] // (pools created inside an execution die with it; package-level ones register again on use)
+	})
+}
+
+func (p *Pool) reg() {
+	if !p.registered {
+		p.registered = true
+		pools = append(pools, p)
+	}
+}
+
+func (p *Pool) Get() any {
+	p.reg()
+	if n := len(p.items); n > 0 {
+		x := p.items[n-1]
+		p.items = p.items[:n-1]
+		return x
+	}
+	if p.New != nil {
+		return p.New()
+	}
+	return nil
+}
+
+func (p *Pool) Put(x any) {
+	p.reg()
+	if x != nil {
+		p.items = append(p.items, x)
+	}
+}
